@@ -260,7 +260,7 @@ def run_impl(p):
                 if k == "iadd_num":
                     t2 = t; t2 += o["x"]
                     if t2 is not t:
-                        raise AssertionError("+= returned another object")
+                        raise engine.Inconsistent("+= returned another object")
                     return True
                 if k == "iadd_table":
                     # (a table holding one shared value keeps it in the KEY dtype: it is added to another such table only)
@@ -268,7 +268,7 @@ def run_impl(p):
                     other = HashTable(keys, o["xs"][0] if sc else np.array(o["xs"], dtype=p["vdtype"]), **kw)
                     t2 = t; t2 += other
                     if t2 is not t:
-                        raise AssertionError("+= returned another object")
+                        raise engine.Inconsistent("+= returned another object")
                     return htgen.sort_pairs((kk, _num(v)) for kk, v in other.to_dict().items())
                 if k == "acc_like":
                     acc = (np.zeros_like if o["like"] == "zeros" else np.ones_like)(t)
@@ -322,11 +322,11 @@ def run_impl(p):
                     trace.append({"k": "refuse"})
         # the arrays handed to the constructor belong to the caller, and the twin table never changed
         if not np.array_equal(keys, keys0) or (isinstance(vals, np.ndarray) and not np.array_equal(vals, vals0)):
-            raise AssertionError("the table wrote into the arrays it was constructed from")
+            raise engine.Inconsistent("the table wrote into the arrays it was constructed from")
         now = [_num(x) for x in np.atleast_1d(twin[keys0])]
         ini = [_num(x) for x in (vals0 if isinstance(vals0, np.ndarray) else [vals0] * len(keys0))]
         if now != ini:
-            raise AssertionError("a table built from the same arrays changed along with this one")
+            raise engine.Inconsistent("a table built from the same arrays changed along with this one")
         return {"k": "trace", "v": trace}
     return guarded(g)
 
